@@ -174,13 +174,91 @@ def expected_report(ver, o):
     return exp
 
 
+ANSI = re.compile(r"\x1b\[[0-9;]*m")
+SCORE_TAIL = re.compile(r"^.*?[:\s](\d+\.\d|None)(?:\s+\((\w+)\))?\s*$")
+
+
+def find_json(out_lines):
+    """First JSON object printed at the start of a line that has a 'vectorString' member:
+    (pairs, None) or (None, why).  Text before / after the document is ignored."""
+    text = "\n".join(out_lines)
+    dec = json.JSONDecoder(object_pairs_hook=list)
+    pos = 0
+    seen_brace = False
+    while True:
+        i = text.find("{", pos)
+        if i < 0:
+            return None, ("json-section-not-parsable" if seen_brace else "json-section-missing")
+        if i == 0 or text[i - 1] == "\n":
+            seen_brace = True
+            try:
+                pairs, _ = dec.raw_decode(text[i:])
+                if isinstance(pairs, list) and any(k == "vectorString" for k, _v in pairs):
+                    return pairs, None
+            except ValueError:
+                pass
+        pos = i + 1
+
+
+def judge_json(out_lines, o):
+    probs = []
+    pairs, why = find_json(out_lines)
+    if pairs is None:
+        return [("json", why)]
+    doc = dict(pairs)
+    keys = [k for k, _ in pairs]
+    want = json.loads(json.dumps(o.as_json(sort=True, minimal=True)))
+    if doc != want:
+        full = json.loads(json.dumps(o.as_json(sort=True, minimal=False)))
+        probs.append(("json", "json-is-the-non-minimal-document" if doc == full else "json-differs-from-sorted-minimal-as_json"))
+    if keys != sorted(keys):
+        probs.append(("json", "json-keys-not-ascending"))
+    return probs
+
+
 def judge_report(out_lines, ver, o, want_json):
-    """Return list of (monitor, problem) for a result section against object o."""
+    """Problems of a result section against object o.  The property fixes WHAT is printed
+    (scores with ratings, cleaned vector, Red Hat vector, JSON), not labels, padding or
+    additional lines: two readings are tried -- by the labels in use at the pinned commit,
+    and label-free -- and the output is accepted if either explains it."""
+    out_lines = [ANSI.sub("", ln) for ln in out_lines]
+    a = judge_report_labels(out_lines, ver, o)
+    if a:
+        b = judge_report_labelfree(out_lines, ver, o)
+        if not b:
+            a = []
+    if want_json:
+        a = a + judge_json(out_lines, o)
+    return a
+
+
+def judge_report_labelfree(out_lines, ver, o):
+    probs = []
+    exp = expected_report(ver, o)
+    tokens = set(t for ln in out_lines for t in ln.split())
+    if exp["clean"] not in tokens:
+        probs.append(("report", "cleaned-vector-differs-from-api"))
+    if exp["rh"] not in tokens:
+        probs.append(("report", "red-hat-vector-differs-from-api"))
+    seq = []
+    for ln in out_lines:
+        if ln.lstrip().startswith(("{", "}", '"')):
+            break  # JSON section
+        m = SCORE_TAIL.match(ln)
+        if m and exp["rh"] not in ln and exp["clean"] not in ln:
+            seq.append((m.group(1), m.group(2)))
+    want_all = [(repr(sc) if sc is not None else "None", rt) for _n, sc, rt in exp["scores"]]
+    want_defined = [(repr(sc), rt) for _n, sc, rt in exp["scores"] if sc is not None]
+    if seq != want_all and seq != want_defined:
+        probs.append(("report", "score-lines-differ-from-api"))
+    return probs
+
+
+def judge_report_labels(out_lines, ver, o):
     probs = []
     exp = expected_report(ver, o)
     found = {}
     clean = rh = None
-    json_start = None
     for i, ln in enumerate(out_lines):
         m = LINE.match(ln)
         if m:
@@ -189,8 +267,6 @@ def judge_report(out_lines, ver, o, want_json):
             clean = ln[len("Cleaned vector:"):].strip()
         elif ln.startswith("Red Hat vector:"):
             rh = ln[len("Red Hat vector:"):].strip()
-        elif ln.startswith("CVSS vector in JSON:"):
-            json_start = i + 1
     for name, score, rating in exp["scores"]:
         got = found.pop(name, None)
         if score is None:
@@ -214,25 +290,6 @@ def judge_report(out_lines, ver, o, want_json):
         probs.append(("report", "cleaned-vector-differs-from-api"))
     if rh != exp["rh"]:
         probs.append(("report", "red-hat-vector-differs-from-api"))
-    if want_json:
-        if json_start is None:
-            probs.append(("json", "json-section-missing"))
-        else:
-            text = "\n".join(out_lines[json_start:])
-            try:
-                pairs = json.loads(text, object_pairs_hook=list)
-                doc = dict(pairs)
-                keys = [k for k, _ in pairs]
-                want = json.loads(json.dumps(o.as_json(sort=True, minimal=True)))
-                if doc != want:
-                    full = json.loads(json.dumps(o.as_json(sort=True, minimal=False)))
-                    probs.append(("json", "json-is-the-non-minimal-document" if doc == full else "json-differs-from-sorted-minimal-as_json"))
-                if keys != sorted(keys):
-                    probs.append(("json", "json-keys-not-ascending"))
-            except ValueError:
-                probs.append(("json", "json-section-not-parsable"))
-    elif json_start is not None:
-        probs.append(("json", "json-printed-without-j"))
     return probs
 
 
@@ -271,8 +328,11 @@ def judge(P, argv, answers, r, mode):
                 P.stratum("invalid-vector")
                 if not isinstance(o, L.CVSSError):
                     probs = [("error-message", "foreign-exception-in-api")]
-                elif r["out"].strip("\n") != str(o):
+                elif str(o) not in ANSI.sub("", r["out"]):
+                    # (the message must be printed; decoration around it is unspecified)
                     probs = [("error-message", "stdout-is-not-the-library-error-message")]
+                elif any(ln.startswith(("Cleaned vector:", "Red Hat vector:")) for ln in out_lines):
+                    probs = [("error-message", "result-lines-printed-for-an-invalid-vector")]
         else:
             order, _ = DLG.question_order(vt, all_metrics)
             if order is None:
@@ -281,7 +341,8 @@ def judge(P, argv, answers, r, mode):
                 outs = M.simulate(ver, order, answers)
                 done = [o_ for o_ in outs if o_[0] is not None]
                 eof = [o_ for o_ in outs if o_[0] is None]
-                has_result = any(ln.startswith("Cleaned vector:") for ln in out_lines)
+                has_result = any(ln.startswith("Cleaned vector:") for ln in out_lines) or any(
+                    T.spell(DLG.PREFIX_OF[vt], list(o_[0])) in r["out"].split() for o_ in done)
                 if not has_result:
                     P.stratum("interactive-eof")
                     if not eof:
@@ -313,7 +374,7 @@ def judge(P, argv, answers, r, mode):
             if other in cands or (DLG.VER_OF[other] in [DLG.VER_OF[c] for c in cands]):
                 continue
             ok, o = obs.call(L.CLS[DLG.VER_OF[other]], vec)
-            if (ok and not judge_report(out_lines, DLG.VER_OF[other], o, want_json)) or (not ok and r["out"].strip("\n") == str(o)):
+            if (ok and not judge_report(out_lines, DLG.VER_OF[other], o, want_json)) or (not ok and str(o) in r["out"]):
                 P.violation("dispatch", "C17:flags-%s-handled-as-version-%s" % ("+".join(c for c in cands), DLG.VER_OF[other]), case,
                             stdout=r["out"][-500:])
                 return
